@@ -5,6 +5,7 @@ use crate::model::*;
 use crate::observe::*;
 use crate::runner::*;
 use crate::{ensure, gen};
+use hpo::annotations::AnnotationId;
 use serde_json::{json, Value};
 
 pub struct C01;
@@ -79,12 +80,59 @@ pub fn check(c: &OntCase, stats: &mut Stats) -> CheckResult {
     Ok(())
 }
 
+/// Closure, inverse child relation and child_of / parent_of on an ontology with `n` terms
+/// (see `bulk_facts`), every term compared with the reference model.
+pub fn check_bulk(n: u32, mult: u32, path: PathSel, stats: &mut Stats) -> CheckResult {
+    let f = bulk_facts(n, mult, 0);
+    let ont = match build_path(&f, path, &Default::default()) {
+        Ok(o) => o,
+        Err(e) => return fail(format!("construct/{}/bulk", path.name()), format!("{n} terms: {e}")),
+    };
+    let m = Model::new(&expected_facts(&f, path));
+    let pn = path.name();
+    let r = guarded(|| -> CheckResult {
+        ensure!(ont.len() == m.len(), format!("closure/{pn}/bulk/term-set"), "len() = {} for {} terms", ont.len(), m.len());
+        let mut sample_pairs = 0u64;
+        for (i, id) in m.ids.iter().enumerate() {
+            let Some(t) = ont.hpo(*id) else { return fail(format!("closure/{pn}/bulk/term-set"), format!("term {id} missing ({n} terms)")) };
+            let got: Vec<u32> = t.all_parent_ids().iter().map(|x| x.as_u32()).collect();
+            let want: Vec<u32> = m.anc[i].iter().copied().collect();
+            ensure!(got == want, format!("closure/{pn}/bulk/all_parents"), "{n} terms: all_parents of {id} = {got:?}, closure is {want:?}");
+            let gp: Vec<u32> = t.parent_ids().iter().map(|x| x.as_u32()).collect();
+            ensure!(gp == m.parents[i].iter().copied().collect::<Vec<u32>>(), format!("closure/{pn}/bulk/parents"), "{n} terms: parents of {id} = {gp:?}, facts say {:?}", m.parents[i]);
+            let gc: Vec<u32> = t.children_ids().iter().map(|x| x.as_u32()).collect();
+            ensure!(gc == m.children[i].iter().copied().collect::<Vec<u32>>(), format!("closure/{pn}/bulk/children"), "{n} terms: children of {id} = {gc:?}, inverse of the parent relation is {:?}", m.children[i]);
+            let resolved: Vec<u32> = t.all_parents().map(|x| x.id().as_u32()).collect();
+            ensure!(resolved == want, format!("closure/{pn}/bulk/all_parents-iterator"), "{n} terms: all_parents() of {id} resolves to {resolved:?}");
+            // child_of / parent_of against a stride of other terms
+            let mut j = (i * 7919) % m.len();
+            for _ in 0..6 {
+                let other = m.ids[j];
+                let to = ont.hpo(other).unwrap();
+                let exp = m.anc[i].contains(&other);
+                ensure!(t.child_of(&to) == exp && to.parent_of(&t) == exp, format!("closure/{pn}/bulk/child_of"), "{n} terms: {id}.child_of({other}) / parent_of disagree with the closure ({exp})");
+                sample_pairs += 1;
+                j = (j + 104_729) % m.len();
+            }
+        }
+        stats.eval(m.len() as u64 + sample_pairs);
+        Ok(())
+    });
+    match r {
+        Ok(r) => r?,
+        Err(p) => return fail(format!("closure/{pn}/bulk/panic"), p),
+    }
+    stats.label("bulk>65535-terms");
+    stats.count("bulk_terms", u64::from(n));
+    Ok(())
+}
+
 impl Property for C01 {
     fn id(&self) -> &'static str {
         "C01"
     }
     fn rule(&self) -> String {
-        "Generated: acyclic is_a graphs (random / chain / diamond ladder / fan / chain+shortcut shapes, 0-3 parents per node, several roots, detached nodes), injective id assignment (dense, sparse, borders), shuffled supply order, pushed through one construction path (Builder minimal/defaults, own v1/v2/v3 encoder -> from_bytes, as_bytes round trip, rendered JAX files -> from_standard / from_standard_transitive; sub_ontology results are covered by C14 with the same closure oracle). Oracle: BFS transitive closure on the facts; parents, children (exact inverse), all_parents (nothing missing/extra, never self), resolving iterators equal id accessors, child_of/parent_of for ALL ordered pairs. evaluations = ordered pairs checked. Non-trivial = some node has >=2 parents sharing an ancestor AND depth >= 3; distinct = hash(canonical facts, path).".into()
+        "Generated: acyclic is_a graphs (random / chain / diamond ladder / fan / chain+shortcut shapes, 0-3 parents per node, several roots, detached nodes), injective id assignment (dense, sparse, borders), shuffled supply order, pushed through one construction path (Builder minimal/defaults, own v1/v2/v3 encoder -> from_bytes, as_bytes round trip, rendered JAX files -> from_standard / from_standard_transitive; sub_ontology results are covered by C14 with the same closure oracle). Oracle: BFS transitive closure on the facts; parents, children (exact inverse), all_parents (nothing missing/extra, never self), resolving iterators equal id accessors, child_of/parent_of for ALL ordered pairs. Deterministic sub-sweep (both tiers): ontologies of 65 536 - 131 100 terms (every node k has the parents k/2 and k/3, ids scattered, deepest terms supplied first) through the Builder and the binary loader, every term's parents / children / all_parents compared with the model, child_of / parent_of on a stride of pairs. evaluations = ordered pairs checked. Non-trivial = some node has >=2 parents sharing an ancestor AND depth >= 3; distinct = hash(canonical facts, path).".into()
     }
     fn assumptions(&self) -> Vec<String> {
         vec![
@@ -100,13 +148,29 @@ impl Property for C01 {
         }
     }
     fn required_labels(&self, _tier: Tier) -> Vec<&'static str> {
-        vec!["nontrivial", "ancestors>30", "parents>30", "children>30", "many-parents-few-ancestors", "records>255", "diamond", "multiroot", "detached", "id0", "id9999999"]
+        vec!["nontrivial", "ancestors>30", "parents>30", "children>30", "many-parents-few-ancestors", "records>255", "diamond", "multiroot", "detached", "id0", "id9999999", "bulk>65535-terms"]
     }
     fn run_generated(&self, tier: Tier, seed: u64, n: u64, stats: &mut Stats) -> Option<(Value, Failure)> {
         let max = if tier == Tier::Quick { 72 } else { 130 };
         run_typed(ont_case_strategy(max, 4, false), seed, n, stats, check)
     }
     fn replay(&self, case: &Value, stats: &mut Stats) -> Result<CheckResult, String> {
+        if let Some(b) = case.get("bulk") {
+            let v: (u32, u32, PathSel) = serde_json::from_value(b.clone()).map_err(|e| e.to_string())?;
+            stats.cases += 1;
+            return Ok(check_bulk(v.0, v.1, v.2, stats));
+        }
         replay_typed::<OntCase, _>(case, stats, check)
+    }
+    fn isolated_plans(&self, tier: Tier, seed: u64) -> Vec<Value> {
+        // more terms than a 16-bit slot index addresses, through the Builder and the binary loader
+        let mult = [7919u32, 104_729, 15_485_863 % 9_999_991, 32_452_843 % 9_999_991][(seed % 4) as usize];
+        let mut plans = vec![(65_700u32, mult, PathSel::Builder), (70_001, mult, PathSel::Bin(3))];
+        if tier == Tier::Thorough {
+            plans.push((131_100, mult, PathSel::RoundTrip));
+            plans.push((66_000, mult, PathSel::BuilderDefaults));
+            plans.push((65_536, mult, PathSel::Bin(1)));
+        }
+        plans.into_iter().map(|p| json!({"bulk": p})).collect()
     }
 }
